@@ -321,13 +321,13 @@ func (a *Act) binop(st *State, op token.Token, xv, yv Val, t types.Type, pos tok
 		if srt == "Str" {
 			switch op {
 			case token.LSS:
-				return app("str_lt", x, y)
+				return app(a.u.D.StrLt(), x, y)
 			case token.LEQ:
-				return or(app("str_lt", x, y), eq(x, y))
+				return or(app(a.u.D.StrLt(), x, y), eq(x, y))
 			case token.GTR:
-				return app("str_lt", y, x)
+				return app(a.u.D.StrLt(), y, x)
 			default:
-				return or(app("str_lt", y, x), eq(x, y))
+				return or(app(a.u.D.StrLt(), y, x), eq(x, y))
 			}
 		}
 		return app(map[token.Token]string{token.LSS: "<", token.LEQ: "<=", token.GTR: ">", token.GEQ: ">="}[op], x, y)
